@@ -178,8 +178,10 @@ def run(ctx):
                     optimizer = rng.choice(['scipy', 'scipy', 'minuit']) if rng.random() > 0.03 else 'ipopt'
                     optconf = rng.choice([[], [], ['maxiter=2000'], ['tolerance=0.001'], ['maxiter=1000', 'maxiter=3000'], ['maxiter=2000', 'verbose=0'], ['maxiter'],
                                           # a repeated key whose two values give observably different results (which one took effect shows in the output / exit status)
-                                          ['maxiter=1', 'maxiter=100000'], ['maxiter=100000', 'maxiter=1'], ['tolerance=0.5', 'tolerance=0.0000001']])
-                    if optimizer == 'minuit' and rng.random() < 0.5: optconf = optconf + ['strategy=1']
+                                          ['maxiter=1', 'maxiter=100000'], ['maxiter=100000', 'maxiter=1'], ['tolerance=0.5', 'tolerance=0.0000001'],
+                                          # settings whose value is zero are settings too (no iterations allowed: the library refuses to call that a fit)
+                                          ['maxiter=0'], ['maxiter=0', 'verbose=0']])
+                    if optimizer == 'minuit' and rng.random() < 0.5: optconf = optconf + [rng.choice(['strategy=1', 'strategy=0', 'strategy=0', 'strategy=2'])]
                     if meas: argv += ['--measurement', meas]; nondefault += 1
                     for p in patches: argv += ['-p', p]
                     if backend != 'numpy': argv += ['--backend', backend]; nondefault += 1
